@@ -7,12 +7,12 @@ from geom import fd_glyphs_json
 from ufo import build, rat
 
 ID = "C02"
-PROOF_FILES = ["Geom", "Reverse", "Render", "Flatten", "GoodCert", "C02"]
-THEOREM = "Ufo2ft.C02.C02_mixed / C02_render / C02_flatten / C02_points_perm / depth facts (+ shared geometry theorems)"
+PROOF_FILES = ["Geom", "Reverse", "Render", "Flatten", "GoodCert", "C02", "C02Skip"]
+THEOREM = "Ufo2ft.C02.C02_mixed / C02_render / C02_render_skip / C02_mixed_skip / C02_flatten / C02_points_perm / depth facts (+ shared geometry theorems)"
 N = {"quick": 160, "thorough": 3000}
 RULE = ("random fonts (line / quadratic contours incl. contours starting off-curve, open contours; component graphs depth<=4 with "
         "F2Dot14-exact matrices incl. mirrors/shears, half-integer offsets; mixed glyphs; shared bases/diamonds) x {convertCubics, "
-        "reverseDirection, flattenComponents} through compileTTF, saved, reloaded: every glyf point (coordinates, on/off flag, contour "
+        "reverseDirection, flattenComponents} (a quarter of them with a skipExportGlyphs list naming helper glyphs made of helper glyphs; integral matrices and offsets there) through compileTTF, saved, reloaded: every glyf point (coordinates, on/off flag, contour "
         "ends), every component record and maxp's component statistics are compared with the Lean model; glyphs with cubic segments "
         "(simple glyphs only) are measured: the deviation of the un-rounded quadratic spline produced by the pre-processor from the source "
         "cubic is sampled (256 points per segment) and must stay within cubicConversionError*unitsPerEm. non-trivial = a mixed glyph or a "
@@ -35,13 +35,26 @@ def gen(rng, n, mode):
         if flatten:
             # composed 2x2 entries must stay inside F2Dot14's [-2, 2): otherwise TTGlyphPointPen decomposes the glyph
             mats = ["id", "id", "mirrorx", "mirrory", "rot90", "rot180", "swap", "half"]
+        skip = []
         if cubic:
             pass
+        elif i % 4 == 1:
+            # skip-export stream: helper glyphs made of helper glyphs, referenced by exported composites; integral matrices and
+            # offsets so that the observed component records can be interpreted exactly (Spec.holdsCompositeSkip)
+            fd = outline_font(rng, nglyphs=rng.choice([3, 5, 8, 12]), kinds=("line", "line", "qcurve"), grid=8, half=0.3,
+                              mats=["id", "id", "mirrorx", "mirrory", "rot90", "rot180", "swap"],
+                              maxdepth=4, pcomp=0.7, mixed=0.25, offstart=True, open_=0.0, offgrid=8)
+            for g in fd["glyphs"]:
+                for c in g["components"]:
+                    c[1][4] = int(c[1][4] // 1); c[1][5] = int(c[1][5] // 1)
+            names = [g["name"] for g in fd["glyphs"]]
+            skip = [nm for nm in names[:-1] if rng.random() < 0.4] or names[:1]
+            err = None
         else:
             fd = outline_font(rng, nglyphs=rng.choice([2, 3, 5, 8]), kinds=("line", "line", "qcurve"), grid=8, half=0.3, mats=mats,
                               maxdepth=4, pcomp=0.6, mixed=0.35, offstart=True, open_=0.1, offgrid=8)
             err = None
-        yield {"fd": fd, "cubic": cubic, "err": err, "convertCubics": True if cubic else rng.random() < 0.7,
+        yield {"fd": fd, "skip": skip, "cubic": cubic, "err": err, "convertCubics": True if cubic else rng.random() < 0.7,
                "reverseDirection": rng.random() < 0.75, "flatten": flatten, "lib": rng.choice(["ufoLib2", "defcon"]),
                "allQuadratic": True}
 
@@ -112,6 +125,8 @@ def run(case):
           "flattenComponents": case["flatten"], "allQuadratic": case["allQuadratic"]}
     if case["err"] is not None:
         kw["cubicConversionError"] = case["err"]
+    if case.get("skip"):
+        kw["skipExportGlyphs"] = list(case["skip"])
     obs = {"err": None}
     try:
         tt = ufo2ft.compileTTF(font, **kw)
@@ -162,12 +177,12 @@ def run(case):
     except Exception as e:
         obs = {"err": type(e).__name__}
     inp = {"glyphs": fd_glyphs_json(fd), "convertCubics": case["convertCubics"], "reverseDirection": case["reverseDirection"],
-           "flatten": case["flatten"]}
+           "flatten": case["flatten"], "skip": case.get("skip") or []}
     mixed = any(g["contours"] and g["components"] for g in fd["glyphs"])
     neg = any(t[0] * t[3] - t[1] * t[2] < 0 for g in fd["glyphs"] for _, t in g["components"])
     off = any(c and c[0][2] is None for g in fd["glyphs"] for c in g["contours"])
     tags = ["cubic" if case["cubic"] else "linequad", "cc:%s" % case["convertCubics"], "rev:%s" % case["reverseDirection"],
-            "flat:%s" % case["flatten"], case["lib"], "err:" + str(obs.get("err"))] + (["mixed"] if mixed else []) + \
+            "flat:%s" % case["flatten"], case["lib"], "err:" + str(obs.get("err"))] + (["mixed"] if mixed else []) + (["skip"] if case.get("skip") else []) + \
         (["det<0"] if neg else []) + (["offstart"] if off else [])
     return [{"op": "font", "in": inp, "obs": obs, "tags": tags, "nontrivial": (mixed and (neg or off)) or case["cubic"]}]
 
@@ -196,11 +211,18 @@ def agree(req, rep):
 
 def shrink(case):
     gl = case["fd"]["glyphs"]
+    for s_ in case.get("skip") or []:
+        c = dict(case); c["skip"] = [x for x in case["skip"] if x != s_]
+        if c["skip"]:
+            yield c
     for i in range(len(gl) - 1, -1, -1):
         nm = gl[i]["name"]
         if any(c[0] == nm for g in gl for c in g["components"]):
             continue
         c = dict(case); c["fd"] = dict(case["fd"]); c["fd"]["glyphs"] = gl[:i] + gl[i + 1:]
+        c["skip"] = [x for x in (case.get("skip") or []) if x != nm]
+        if case.get("skip") and not c["skip"]:
+            continue
         yield c
     for i, g in enumerate(gl):
         if len(g["contours"]) > 1:
@@ -211,7 +233,7 @@ def shrink(case):
 
 LEVEL_TEXT = ("Proved (Lean, all inputs): after the TrueType pre-processing steps every glyph has contours or components but not both and "
               "draws what it drew (decompose with the has-contours include predicate, then flatten; any traversal order); flattened composites "
-              "reference only non-composite glyphs; re-anchoring and reversal permute a closed contour's points; the DFS depth used for the "
+              "reference only non-composite glyphs; with a skip-export list every exported glyph still draws a permutation of its source contours (C02_render_skip) and on the compiled font every component reference resolves to a glyph present, none skipped, and the observed references interpreted over the source draw the source contours; re-anchoring and reversal permute a closed contour's points; the DFS depth used for the "
               "traversal order under-counts on shared bases (witness) while maxp is the true depth. Line/quadratic glyphs are compared point "
               "for point with the compiled glyf table; cubic conversion is measured against cubicConversionError*unitsPerEm (cu2qu is external).")
 LEVEL_NOTE = ("Trusted: Lean kernel + standard axioms; correspondence harness; glyf codec and maxp.recalc (fontTools); cu2qu's error bound is "
